@@ -623,10 +623,14 @@ def _load_from_disk(file_name):
 def _save_to_disk(file_name, obj, overwrite=False):
     if not overwrite and os.path.isfile(file_name):
         raise RuntimeError(f"{file_name} already exists")
-    if overwrite and os.path.isfile(file_name):
-        os.remove(file_name)
-    with open(file_name, "wb") as f:
+    # Write to a temporary file (whose name cannot be mistaken for a sample
+    # file) and atomically move it into place, so that an interruption never
+    # leaves a missing or partially written file behind.
+    dir_name, base_name = os.path.split(file_name)
+    tmp_name = os.path.join(dir_name, f".tmp.{base_name}")
+    with open(tmp_name, "wb") as f:
         pickle.dump(obj, f, pickle.HIGHEST_PROTOCOL)
+    os.replace(tmp_name, file_name)
 
 
 def _field2hdf5(file_handle, obj, name):
